@@ -126,20 +126,25 @@ def tla_unquote(s):
     return s.replace('\\"', '"').replace("\\\\", "\\")
 
 
+def tlc_nocopy(wd, module, cfg, **kw):
+    """like tlc() but uses the spec files already present in wd (after manual patching)"""
+    return tlc(wd, module, cfg, nocopy=True, **kw)
+
+
 def tlc(wd, module, cfg, workers=None, timeout=600, extra=None, deque=False, files=None, heap=None,
-        defs=None):
+        defs=None, nocopy=False):
     """Run TLC on spec/<module>.tla with config text or file `cfg` inside work dir `wd`.
     All spec/*.tla are copied next to it so EXTENDS works. Returns TLCResult.
     Raises Infra on timeout / JVM failure."""
     for f in os.listdir(SPEC):
-        if f.endswith(".tla"):
+        if f.endswith(".tla") and not nocopy:
             shutil.copy(os.path.join(SPEC, f), wd)
     for f in files or []:
         shutil.copy(f, wd)
-    if os.path.exists(cfg):
+    if cfg and "\n" not in cfg and os.path.isfile(cfg):
         cfgpath = os.path.join(wd, os.path.basename(cfg))
         shutil.copy(cfg, cfgpath)
-    elif os.path.exists(os.path.join(SPEC, cfg)):
+    elif cfg and "\n" not in cfg and os.path.isfile(os.path.join(SPEC, cfg)):
         cfgpath = os.path.join(wd, os.path.basename(cfg))
         shutil.copy(os.path.join(SPEC, cfg), cfgpath)
     else:
@@ -147,11 +152,16 @@ def tlc(wd, module, cfg, workers=None, timeout=600, extra=None, deque=False, fil
         open(cfgpath, "w").write(cfg)
     if defs:
         # textual substitution of @@NAME@@ placeholders in the copied module (paths, constants)
-        p = os.path.join(wd, module + ".tla")
-        t = open(p).read()
-        for k, v in defs.items():
-            t = t.replace("@@%s@@" % k, str(v))
-        open(p, "w").write(t)
+        for fn in os.listdir(wd):
+            if not fn.endswith(".tla"):
+                continue
+            p = os.path.join(wd, fn)
+            t = open(p).read()
+            t2 = t
+            for k, v in defs.items():
+                t2 = t2.replace("@@%s@@" % k, str(v))
+            if t2 != t:
+                open(p, "w").write(t2)
     meta = os.path.join(wd, "meta-%d" % (int(time.time() * 1000000) % 10000000))
     cmd = ["java", "-XX:+UseParallelGC", "-Xss256m"]
     if heap:
